@@ -148,7 +148,7 @@ func primitivesCase(x *h.X, class keycat.Class, legacy bool, priv *protoKey, des
 	x.Count("guarded-calls", len(t.sets))
 }
 
-// sweep (thorough tier): every VALID declared parameter point of every key type of the catalogue
+// sweep (quick: the key types with up to a few hundred valid points; thorough: all): every VALID declared parameter point of every key type of the catalogue
 // (keycat's parameter domains: sizes, hashes, curves, KEM/KDF/AEAD ids, DEMs, encodings ...), one key
 // each, reduced length/spare domains, all three adjacency modes.
 var (
@@ -179,6 +179,9 @@ func sweepCases(f *keycat.Family) []*keycat.KeyCase {
 	return out
 }
 
+// parameter domains with thousands of valid points are swept in the thorough tier only
+var sweepThoroughOnly = map[string]bool{"AesCtrHmacAead": true, "AesCtrHmacStreaming": true, "EciesAeadHkdf": true, "Hmac": true, "RsaSsaPss": true}
+
 func sweepFamilies() []*keycat.Family {
 	var out []*keycat.Family
 	for _, f := range keycat.Families() {
@@ -193,6 +196,10 @@ func sweepSection(x *h.X) {
 	fams := sweepFamilies()
 	f := fams[x.Choose("family", len(fams))]
 	x.Label(f.Name)
+	if !x.Thorough() && sweepThoroughOnly[f.Name] {
+		x.Outcome("thorough-only:" + f.Name)
+		return
+	}
 	cases := sweepCases(f)
 	if len(cases) == 0 {
 		return
@@ -276,6 +283,6 @@ func main() {
 			{Name: "keys", Body: keysSection, Bound: -1},
 			{Name: "secretdata", Body: secretdataSection, Bound: -1},
 			{Name: "subtle", Body: subtleSection, Bound: -1},
-			{Name: "parameter-sweep", Body: sweepSection, Bound: -1, Tiers: "thorough"},
+			{Name: "parameter-sweep", Body: sweepSection, Bound: -1},
 		})
 }
